@@ -325,6 +325,62 @@ def mk_base_range(kind):
     return mk
 
 
+PREFIX_VALUES = ["yes", "yesterday", "no", "none", "maybe", "m", ""]     # nested prefixes, a one-letter and an empty member
+PREFIX_MAP = {"yes": 1, "yesterday": 2, "no": 0, "none": None, "maybe": 0.5}
+
+
+class KStr(str):
+    """environment model: a member string whose startswith() also answers for a symbolic prefix (str.startswith is a C method)"""
+
+    def startswith(self, p, *a):
+        if isinstance(p, symx.SymStr):
+            return symx.SymBool(z3.simplify(z3.PrefixOf(p.e, z3.StringVal(str(self)))))
+        return str.startswith(self, p, *a)
+
+
+class ModelSet(frozenset):
+    """environment model: membership of a (possibly symbolic) string decided by == (frozenset.__contains__ hashes in C)"""
+
+    def __contains__(self, x):
+        if symx.is_proxy(x) or isinstance(x, symx.SymStr):
+            return any(bool(x == k) for k in frozenset.__iter__(self))
+        return frozenset.__contains__(self, x)
+
+
+def mk_prefix(kind):
+    def mk(ex):
+        from traits.api import PrefixList, PrefixMap
+        if kind == "list":
+            t = PrefixList(list(PREFIX_VALUES))
+            if ex.sym:
+                t.values = [KStr(v) for v in t.values]
+                t._values_as_set = ModelSet(t.values)
+        else:
+            t = PrefixMap(dict(PREFIX_MAP))
+            if ex.sym:
+                t.map = pymodel.ModelDict({KStr(k): v for k, v in t.map.items()})
+        return t, {}
+    return mk
+
+
+def dom_prefix(members):
+    """documented: a member, or a prefix of exactly one member; the stored value is the completed member"""
+    def dom(ex, st, v):
+        if isinstance(v, symx.SymStr):
+            for k in members:
+                if ex.decide(v.e == z3.StringVal(k)):
+                    return ACCEPT, k
+            m = [k for k in members if ex.decide(z3.PrefixOf(v.e, z3.StringVal(k)))]
+            return (ACCEPT, m[0]) if len(m) == 1 else (REJECT,)
+        if not isinstance(v, str):
+            return (REJECT,)
+        if v in members:
+            return ACCEPT, v
+        m = [k for k in members if k.startswith(v)]
+        return (ACCEPT, m[0]) if len(m) == 1 else (REJECT,)
+    return dom
+
+
 def mk_range_float_const(ex):
     lo, hi = [(0.0, 1.0), (-2.5, 9007199254740993.0), (None, 1e10), (-0.0, None)][ex.choice("bounds", 4)]
     st = {"xl": ex.flag("exclude_low"), "xh": ex.flag("exclude_high"), "lo": lo, "hi": hi}
@@ -380,6 +436,9 @@ CONFIGS = {
     "BaseCFloat": (simple(lambda: __import__("traits.api", fromlist=["x"]).BaseCFloat()), dom_cfloat, ["none", "bool", "int64", "float", "str", "object"]),
     "BaseRangeFloat": (mk_base_range("float"), dom_range_float, ["none", "bool", "float", "floatsub", "floatobj", "npfloat", "str", "object"]),
     "BaseRangeInt": (mk_base_range("int"), dom_range_int, ["none", "bool", "int", "intsub", "float", "indexobj", "npint", "str"]),
+    # prefix uniqueness, decided for EVERY string (z3 String, length <= 8)
+    "PrefixList": (mk_prefix("list"), dom_prefix(PREFIX_VALUES), ["symstr", "strsub", "none", "int", "bytes", "object"]),
+    "PrefixMap": (mk_prefix("map"), dom_prefix(list(PREFIX_MAP)), ["symstr", "strsub", "none", "int", "object"]),
     "RangeFloat": (mk_range_float, dom_range_float, FLOATISH + ["str", "object"]),
     "RangeFloatConst": (mk_range_float_const, dom_range_float, INTISH),
     "RangeInt": (mk_range_int, dom_range_int, ["none", "bool", "int", "intsub", "float", "indexobj", "npint", "str", "object"]),
@@ -507,6 +566,12 @@ def make_harness(cfgname, kind):
                 from traits.trait_list_object import TraitListObject
                 ex.check(isinstance(after.get("x"), TraitListObject) and list(after["x"]) == d[1],
                          "stored value is the documented conversion (a validating list with the same items)")
+            elif d[0] == ACCEPT and cfgname in ("PrefixList", "PrefixMap"):
+                got = after.get("x")
+                if isinstance(got, symx.SymStr):
+                    ex.check(got.e == z3.StringVal(d[1]), "stored value is the completed member")
+                else:
+                    ex.check(isinstance(got, str) and str(got) == d[1], "stored value is the completed member")
             elif d[0] == ACCEPT:
                 ex.check("x" in after and c03.same_result(after["x"], d[1]) is not False and
                          _cond(c03.same_result(after["x"], d[1]), ex),
@@ -517,6 +582,9 @@ def make_harness(cfgname, kind):
                 want = MAPPING2[d[1]] if isinstance(d[1], str) else d[1]
                 ex.check("x_" in after and after["x_"] == want, "mapped shadow attribute holds the mapped value (the value itself "
                                                                 "for the unmapped alternative)")
+            if cfgname == "PrefixMap" and d[0] == ACCEPT:
+                want = PREFIX_MAP[d[1]]
+                ex.check("x_" in after and (after["x_"] is want or after["x_"] == want), "mapped shadow attribute holds the mapped value")
             if cfgname == "Map" and d[0] == ACCEPT:
                 want = pymodel.ModelDict(MAPPING)[d[1]]
                 ex.check("x_" in after and after["x_"] is want or after.get("x_") == want,
@@ -539,7 +607,7 @@ def make_harness(cfgname, kind):
                      "rejected assignment leaves every attribute exactly as it was")
             ex.check(log == [], "rejected assignment notifies nobody")
         return {"rc": rc, "err": err[0].__name__ if err else None,
-                "stored": Ob(after["x"]) if (rc == 0 and "x" in after and cfgname not in ("String",)) else None}
+                "stored": Ob(after["x"]) if (rc == 0 and "x" in after and cfgname not in ("String", "PrefixList", "PrefixMap")) else None}
 
     return harness
 
